@@ -71,7 +71,7 @@ def enc_query(q):
     if k[0] == 'select':
         ks = '(0 (%s))' % ' '.join(enc_item(i) for i in k[1])
     elif k[0] == 'except':
-        ks = '(1 (%s))' % ' '.join(str(i) for i in k[1])
+        ks = '(1 (%s))' % ' '.join(str(i) for i in sorted(k[1]))      # the code sorts the indices; duplicates are kept
     else:
         ks = '(2 (%s))' % ' '.join('(%d %s)' % (i, enc_expr(e)) for i, e in k[1])
     j = q.get('join')
